@@ -314,6 +314,20 @@ func (p *phaser) alignAgainstRefsAA(seq Sequence, orfsaa []Sequence) (ph PhasedS
 		}
 	}
 
+	if bestseq == nil {
+		// No phase gives an alignment with a positive score: the sequence is discarded
+		ph = PhasedSequence{
+			Err:      nil,
+			Removed:  true,
+			Position: 0,
+			NtSeq:    seq.Clone(),
+			CodonSeq: seq.Clone(),
+			AaSeq:    NewSequence(seq.Name(), []uint8{}, seq.Comment()),
+			Ali:      nil,
+		}
+		return
+	}
+
 	ph = PhasedSequence{
 		Err:      nil,
 		Removed:  false,
@@ -404,6 +418,20 @@ func (p *phaser) alignAgainstRefsNT(seq Sequence, orfs []Sequence) (ph PhasedSeq
 				}
 			}
 		}
+	}
+
+	if bestseq == nil {
+		// No strand gives an alignment with a positive score: the sequence is discarded
+		ph = PhasedSequence{
+			Err:      nil,
+			Removed:  true,
+			Position: 0,
+			NtSeq:    seq.Clone(),
+			CodonSeq: seq.Clone(),
+			AaSeq:    NewSequence(seq.Name(), []uint8{}, seq.Comment()),
+			Ali:      nil,
+		}
+		return
 	}
 
 	phase = (3 - nbgapstart%3) % 3
